@@ -101,6 +101,18 @@ fn run(op: &str, args: &[Sx]) -> Option<Sx> {
             }
             sx::l(out)
         }
+        // every scalar value >= 128 whose full upper-case mapping is all ASCII, and
+        // every ASCII one whose mapping differs from the ASCII fold: (cp (upper cps))
+        "upper-survey" => {
+            let mut out = vec![];
+            for cp in 0u32..=0x10ffff {
+                let Some(ch) = char::from_u32(cp) else { continue };
+                let up: String = ch.to_string().to_uppercase();
+                let report = if cp < 128 { up != ch.to_ascii_uppercase().to_string() } else { up.is_ascii() };
+                if report { out.push(sx::l(vec![sx::a(cp), sx::cps(&up)])); }
+            }
+            sx::l(out)
+        }
         "fake-rate" => {
             let Some(id) = args.first().and_then(Sx::as_str) else { return Some(sx::bad()) };
             sx::s(&format!("{}", hk::fake_rate(id)))
